@@ -44,6 +44,8 @@ func main() {
 		list       = flag.Bool("list", false, "list harnesses and exit")
 		execPkgs   = flag.String("exec-pkgs", "", "comma-separated extra packages whose bodies/inits may run")
 		maxViol    = flag.Int("max-violations", 20, "violating paths to keep per harness")
+		noFast     = flag.Bool("no-fast-path", false, "send every decision to the solver (disable the byte-domain fast path)")
+		crossCheck = flag.Int("cross-check", 50, "cross-check every n-th fast-path verdict with the solver (0 = never)")
 	)
 	flag.Parse()
 
@@ -141,6 +143,7 @@ func main() {
 		c := interp.Config{
 			Workers: *workers, Solver: spec, SolverTimeout: *solverMs, MaxSteps: *maxSteps, MaxPaths: *maxPaths,
 			SamplePaths: *samples, KeepPC: *keepPC, Trace: *trace, SolverLog: *solverLog, MaxViolations: *maxViol,
+			NoFastPath: *noFast, CrossCheckEvery: *crossCheck,
 		}
 		if *execPkgs != "" {
 			c.InitWhitelist = strings.Split(*execPkgs, ",")
